@@ -1,6 +1,6 @@
 CFG = {
-    "extra_theorems": ["Xeh.LeafBridge.cutBits_matches_source", "Xeh.LeafBridge.data_words_match"],
-    "extra_modules": ["XehModel.Proofs.Leaf.Bits", "XehModel.Proofs.Tables.Data"],
+    "extra_theorems": ["Xeh.LeafBridge.cutBits_matches_source", "Xeh.LeafBridge.data_words_match", "Xeh.LeafBridge.range_ops_match_source"],
+    "extra_modules": ["XehModel.Proofs.Leaf.Bits", "XehModel.Proofs.Tables.Data", "XehModel.Proofs.Tables.RangeOps"],
     "n_quick": 4000, "n_thorough": 400000,
     "rule": "sequences of 3..20 words — parsing words (bits bytes uN/iN/fN(+le/be) uint int float magic seek find remain nulbytestr cstr open-bitstr close-bitstr big little offset input) with ~10 % construction words mixed in (bitstr-append >bitstr emit output output-length uN!/iN!/fN!(+le/be) int! float!, output interception on) — run word by word with Xstate::eval on one booted interpreter, followed by close-bitstr until it fails; inputs are slices of longer buffers (start alignment 0..18, any end alignment, lengths 0..330 incl. 127/128/129); size arguments from {in-range, end-exact, end+1, 2^31, 2^61±1, 2^63, 2^64-8, 2^64-1, 2^64, 2^64+1, 2^126, i128::MAX, negative, wrong type, missing}; one PRNG seed; a sequence is non-trivial when at least one word succeeded and at least one failed or moved the offset; distinct = distinct request lines"
         " Added after the fourth campaign: 30 % of the open-bitstr steps go through the API (set_binary_input); ~6 % of the words run with the stack limit set just at / just above what the stack holds once the word has taken its arguments (tokens L=<n> … L=-; the cursor model carries the limit), plus an implementation-only oracle stream of reads refused by the stack limit (nothing moves; the same read succeeds once the limit is raised)."
